@@ -31,12 +31,12 @@ theorem tokenizeV_render' (o : FOpts) (w : WsOpts) (hw : w.Blank) (ts : List Tok
     (hk : tokensOK o ts = true) : tokenizeV o (render w ts) = some ts :=
   (tokenizeV_eq_some o _ ts).mpr ⟨tokenize_render' w hw ts h, hk⟩
 
-theorem respell_verbatim (o : FOpts) (hv : o.verbatim) (ts : List Tok) : ts.map (respell o) = ts := by
+theorem respell_verbatim (o : FOpts) (hv : o.verbatim) (ts : List Tok) : ts.map (respellTok o) = ts := by
   obtain ⟨h1, h2, h3⟩ := hv
-  have : ∀ t, respell o t = t := by
+  have : ∀ t, respellTok o t = t := by
     intro t
-    cases t <;> simp [respell, respellStr, h1, h2, h3]
-  rw [show respell o = id from funext this, List.map_id]
+    cases t <;> simp [respellTok, respellStr, h1, h2, h3]
+  rw [show respellTok o = id from funext this, List.map_id]
 
 /-- the strictness test is exactly the strict string grammar of C01 -/
 theorem strictStr_iff (raw : Bytes) : strictStr raw = true ↔ JString true raw := by
